@@ -88,6 +88,15 @@ def gen(rng, tier, quarantine=()):
                     # raw captures are read after the operation: not for values mutated in place meanwhile
                     "raw": rng.random() < 0.3 and focus not in fnir.get("mutable", ())})
         ops.append({"op": "enter", "id": f"p{i}"})
+    if "no-overridable" not in quarantine and nprobes == 2 and rng.random() < 0.12:
+        # both probes are overridable and watch the same variable; the one activated later supplies a
+        # value for (some of) its bindings: the earlier one is still told of every binding
+        f0 = ops[0]["sels"][0]["focus"]["var"]
+        if not f0.startswith("#") and f0 not in fnir.get("mutable", ()) and f0 not in fnir.get("free", ()):
+            for k, how in ((0, rng.choice([["even_const", 3], ["odd_add", 2], ["const", 1]])),
+                           (2, rng.choice([["const", 7], ["even_const", 42], ["add", 10]]))):
+                ops[k].update({"kind": "overridable", "how": how, "count_only": True, "raw": False,
+                               "sels": [simple_sel(qual, focus=f0, caps=[])]})
     tl = 24 if tier == "quick" else 48
     short = qual.split(".")[-1]
     failing = False
